@@ -9,7 +9,8 @@ pub open spec fn a_deprecated(m: Option<Seq<char>>) -> Seq<Tok> {
     toks!{ deprecated #mm }
 }
 pub open spec fn a_deser_id() -> Seq<Tok> { toks!{ serde ( deserialize_with = "graphql_client::serde_with::deserialize_id" ) } }
-pub open spec fn a_deser_option_id() -> Seq<Tok> { toks!{ serde ( deserialize_with = "graphql_client::serde_with::deserialize_option_id" ) } }
+// nullable ID: `default` makes an absent key None (A-serde: a field with `deserialize_with` rejects a missing key unless it also says `default`)
+pub open spec fn a_deser_option_id() -> Seq<Tok> { toks!{ serde ( default , deserialize_with = "graphql_client::serde_with::deserialize_option_id" ) } }
 pub open spec fn a_skip() -> Seq<Tok> { toks!{ serde ( skip_serializing_if = "Option::is_none" ) } }
 pub open spec fn opt_attr(c: Option<Seq<Tok>>) -> Seq<Tok> { match c { Some(x) => attr(x), None => Seq::<Tok>::empty() } }
 
